@@ -359,3 +359,56 @@ def rand_records(rng, g, n, walks=None, canonical=False, name_space=0.25, ds=0.1
                        mapq=rng.choice([0, 1, 60, 60, 255]), cigar="", tags=tags, matches=rng.randint(1, e - s), block=e - s + rng.randint(0, 2))
         out.append((w, s, e, f))
     return out
+
+
+def reads_for(g, recs, rng):
+    """FASTA reads for realign: the spelled path interval of every record, sometimes with a mismatch or a deletion"""
+    reads = []
+    for w, s, e, f in recs:
+        seq = g.spell(w)[s:e]
+        if len(seq) > 3 and rng.random() < 0.4:
+            k = rng.randint(1, len(seq) - 2)
+            seq = seq[:k] + ("" if rng.random() < 0.5 else {"A": "C", "C": "G", "G": "T", "T": "A"}[seq[k]]) + seq[k + 1:]
+        seq += "ACGT"[: max(0, int(f[1]) - len(seq))] + "A" * 4
+        reads.append([cut_name(f[0]), seq])
+    return reads
+
+
+def bgzf_blocks(path):
+    """number of non-empty BGZF blocks of a file (walks the BSIZE fields of the gzip members)"""
+    import struct
+    n = 0
+    with open(path, "rb") as f:
+        data = f.read()
+    pos = 0
+    while pos < len(data):
+        assert data[pos:pos + 4] == b"\x1f\x8b\x08\x04", "not a BGZF block at %d" % pos
+        xlen = struct.unpack("<H", data[pos + 10:pos + 12])[0]
+        extra = data[pos + 12:pos + 12 + xlen]
+        bsize, q = None, 0
+        while q < len(extra):
+            si, slen = extra[q:q + 2], struct.unpack("<H", extra[q + 2:q + 4])[0]
+            if si == b"BC":
+                bsize = struct.unpack("<H", extra[q + 4:q + 6])[0]
+            q += 4 + slen
+        isize = struct.unpack("<I", data[pos + bsize - 3:pos + bsize + 1])[0]
+        if isize:
+            n += 1
+        pos += bsize + 1
+    return n
+
+
+def real_resolve(path, index):
+    """{index key: [str(record) for every stored offset]} using the real GAF(...).read_line on `path`"""
+    from gaftools.gaf import GAF
+    g = GAF(path)
+    out = {}
+    try:
+        for k, offs in index.items():
+            if isinstance(k, tuple) or not isinstance(offs, list) or (offs and not isinstance(offs[0], str)):
+                out[repr(k)] = [str(g.read_line(o)) for o in offs]
+            else:
+                out[repr(k)] = list(offs)  # the "ref_contig" entry: a list of contig names
+    finally:
+        g.close()
+    return out
